@@ -439,11 +439,18 @@ def alloc_destination(f, defs, t):
 
 
 # ---------------------------------------------------------------------------------------
+
+def unclosure(path):
+    """the path of the enclosing named function (closure numbers are source positions and change when an unrelated closure is added)"""
+    import re
+    return re.sub(r"(::\{closure#\d+\})+$", "", path)
+
+
 LEAK_FNS = ("core::mem::forget", "core::mem::manually_drop::ManuallyDrop::<T>::new", "alloc::boxed::Box::<T, A>::leak",
             "alloc::vec::Vec::<T, A>::leak", "alloc::sync::Arc::<T, A>::into_raw", "alloc::rc::Rc::<T, A>::into_raw",
             "alloc::boxed::Box::<T, A>::into_raw", "alloc::vec::Vec::<T, A>::into_raw_parts", "core::mem::ManuallyDrop")
 LEAK_ALLOWED = {
-    ("jxl_render::vardct::dct_common::sec_half::{closure#0}", "alloc::vec::Vec::<T, A>::leak"):
+    ("jxl_render::vardct::dct_common::sec_half", "alloc::vec::Vec::<T, A>::leak"):
         "an untracked, process-lifetime lookup table of f32 (no AllocHandle inside)",
 }
 
@@ -459,7 +466,7 @@ def rule_noleak(ctx):
                 continue
             if c["fn"] in LEAK_FNS or c["fn"].startswith("core::mem::manually_drop::ManuallyDrop"):
                 ctx.count(rid + ".sites")
-                k = (f.path, c["fn"])
+                k = (unclosure(f.path), c["fn"])
                 if k in LEAK_ALLOWED and not any(HANDLE in a or "AlignedGrid" in a for a in c["args"]):
                     ctx.ok(rid, "leak-allowed:%s:%s" % k, LEAK_ALLOWED[k], fn=f)
                 else:
@@ -475,7 +482,7 @@ def rule_noleak(ctx):
 
 OOM_UNWRAP_ALLOWED = {
     "jxl_grid::AlignedGrid::<S>::clone_untracked": "try_clone is given tracker None here (constant): cannot fail for accounting reasons",
-    "jxl_jbr::reconstruct::JpegBitstreamReconstructor::<'jbrd, 'frame, 'meta>::new::{closure#4}": "scratch grid created with tracker None (constant)",
+    "jxl_jbr::reconstruct::JpegBitstreamReconstructor::<'jbrd, 'frame, 'meta>::new": "scratch grid created with tracker None (constant) in a closure of new()",
 }
 
 
@@ -494,8 +501,8 @@ def rule_oom(ctx):
             if not any(("OutOfMemory" in a or "TryReserveError" in a or HANDLE in a) for a in c["args"]):
                 continue
             ctx.count(rid + ".unwraps")
-            if f.path in OOM_UNWRAP_ALLOWED and untracked_source(f, t):
-                ctx.ok(rid, "unwrap-untracked:" + f.path, OOM_UNWRAP_ALLOWED[f.path], nontrivial=True, fn=f)
+            if unclosure(f.path) in OOM_UNWRAP_ALLOWED and untracked_source(f, t):
+                ctx.ok(rid, "unwrap-untracked:" + unclosure(f.path), OOM_UNWRAP_ALLOWED[unclosure(f.path)], nontrivial=True, fn=f)
             else:
                 ctx.bad(rid, "unwrap-oom:" + f.path, "%s on Result<%s>: reaching the allocation limit would panic instead of returning an error"
                         % (n.split("::")[-1], ", ".join(c["args"])), fn=f, pos=t[-2])
@@ -714,6 +721,8 @@ def main(pid, tier, repo=None):
         rule_account_first(ctx)
         rule_oom_drop(ctx)
         rule_limit_commit(ctx)
+        from . import proto
+        proto.rule_publish_success(ctx)
         # exhaustion must surface as an error also when it happens in one of several parallel tasks: the shared result slot is monotone
         from . import c07
         c07.rule_errslot(ctx)
